@@ -300,6 +300,13 @@ func (l *LedgerApi) GetFrontierMomentum() (*Momentum, error) {
 	return ledgerMomentumToRpc(momentum)
 }
 func (l *LedgerApi) GetMomentumBeforeTime(timestamp int64) (*Momentum, error) {
+	// time.Time.UnixNano, used by the store, is only defined for years 1678-2262
+	const maxUnixNanoSeconds = int64(1<<63-1) / int64(time.Second)
+	if timestamp > maxUnixNanoSeconds {
+		timestamp = maxUnixNanoSeconds
+	} else if timestamp < -maxUnixNanoSeconds {
+		timestamp = -maxUnixNanoSeconds
+	}
 	currentTime := time.Unix(timestamp, 0)
 	momentum, err := l.chain.GetFrontierMomentumStore().GetMomentumBeforeTime(&currentTime)
 	if err != nil || momentum == nil {
